@@ -521,7 +521,7 @@ def replay(v, native):
         silent = lambda rc, out, errt: rc not in (0, 101) and 'Pre-commit failed' not in errt and 'pre-commit' not in errt.lower()
         judge = {'K2-refusal-carries-a-diagnostic': silent,
                  'K2-refusal-is-non-zero': lambda rc, out, errt: rc == 0 and '"let_git_run"' not in out,
-                 'K2-no-refusal-without-a-failure': lambda rc, out, errt: rc not in (0, 101)}.get(ob)
+                 'K2-no-refusal-without-a-failure': lambda rc, out, errt: rc not in (0, 101) and inp.get('pre_commit') == 'ok'}.get(ob)
         if judge is None:
             return {'reproduced': False}
         return _run_raw(native, 'c07_pre_commit_refusal', {'argv': inp['argv'], 'pre_commit': inp['pre_commit']}, judge)
